@@ -78,6 +78,23 @@ type withUnexported struct {
 	Shown  int
 }
 
+// withUnexportedStructs: unexported fields of struct, pointer and interface kind under the keys nested blocks use
+type withUnexportedStructs struct {
+	Name  string
+	inner struct {
+		Name    string
+		Y, X, A int
+	}
+	sub struct {
+		Name string
+		X    int
+	}
+	a     A
+	p     *struct{ X int }
+	i     any
+	Shown int
+}
+
 type withPointers struct {
 	Name string
 	P    *int
@@ -334,7 +351,7 @@ func c15Targets(r *rand.Rand, bd bcl.Binding) any {
 		return mk(c15TargetType(r, first, false), !isSlice) // wrong kind for the binding
 	case k == 13 || k == 15:
 		zt := []reflect.Type{reflect.TypeOf(withEmbedded{}), reflect.TypeOf(withUnexported{}), reflect.TypeOf(withPointers{}), reflect.TypeOf(A{}), reflect.TypeOf(Tunnel{}),
-			reflect.TypeOf(withDigits{}), reflect.TypeOf(prePopulated{}), reflect.TypeOf(prePopulated{}), reflect.TypeOf(withEmbeddedPtr{}), reflect.TypeOf(withEmbeddedUnexpPtr{}), reflect.TypeOf(withEmbeddedAndTag{}), reflect.TypeOf(withEmbeddedAndTag{})}
+			reflect.TypeOf(withDigits{}), reflect.TypeOf(prePopulated{}), reflect.TypeOf(prePopulated{}), reflect.TypeOf(withEmbeddedPtr{}), reflect.TypeOf(withEmbeddedUnexpPtr{}), reflect.TypeOf(withEmbeddedAndTag{}), reflect.TypeOf(withEmbeddedAndTag{}), reflect.TypeOf(withUnexportedStructs{}), reflect.TypeOf(withUnexportedStructs{})}
 		return mk(zt[r.Intn(len(zt))], isSlice)
 	case k == 14:
 		// hostile non-struct things
